@@ -579,6 +579,13 @@ def commutative_body(loop):
                     return False, f'.{v.func.attr}() inside the loop'
             if isinstance(v, ast.Call) and (chain(v.func) or [''])[-1] in ('push', 'heappush'):
                 return True, 'heap push (order restored by the key)'
+            if (isinstance(v, ast.Call) and isinstance(v.func, ast.Name) and v.func.id == 'setattr' and len(v.args) == 3
+                    and isinstance(v.args[0], ast.Name) and v.args[0].id in names):
+                stored = {n.id for b in loop.body for n in ast.walk(b) if isinstance(n, ast.Name) and isinstance(n.ctx, ast.Store)}
+                used = {n.id for a in v.args[1:] for n in ast.walk(a) if isinstance(n, ast.Name)}
+                if not (used & stored - names) and not any(isinstance(n, ast.Call) and (chain(n.func) or [''])[-1] not in
+                                                         ('tuple', 'list', 'sorted', 'len', 'set', 'frozenset', 'getattr') for a in v.args[1:] for n in ast.walk(a)):
+                    return True, 'setattr on the loop variable from its own state'
             return None, f'expression statement {src(s)[:50]}'
         if isinstance(s, ast.AugAssign):
             if isinstance(s.op, (ast.BitOr, ast.BitAnd, ast.BitXor)) or (isinstance(s.op, ast.Add) and isinstance(s.value, ast.Constant)):
